@@ -259,7 +259,11 @@ func (g *g) argFor(c callee, i int, d int) *N {
 	switch typ {
 	case "addr":
 		g.f("address_of_argument")
-		switch g.n(0, 3, "addrof") {
+		switch g.n(0, 4, "addrof") {
+		case 4:
+			// a pointer to a variable that holds nil (or a number) is not nil: the right side of ?? stays unevaluated
+			g.f("address_of_left_of_coalesce")
+			return &N{K: "coal", Ns: []*N{{K: "addr", Ns: []*N{Id(rapid.SampledFrom([]string{"nv", "nv", "x"}).Draw(g.t, "addrid"))}}, g.leaf(Int(int64(g.n(1, 9, "cv"))), true)}}
 		case 0:
 			return &N{K: "addr", Ns: []*N{Id(rapid.SampledFrom([]string{"x", "y", "acc"}).Draw(g.t, "addrid"))}}
 		case 1:
@@ -354,7 +358,26 @@ func (g *g) callE(d int, minRet int) *N {
 
 func (g *g) root() *N {
 	d := g.n(1, 3, "depth")
-	switch g.n(0, 13, "root") {
+	switch g.n(0, 14, "root") {
+	case 14:
+		// ONE defer statement executed twice, its callee name bound to another function each time: the
+		// callee is part of what the defer statement evaluates, every time it runs
+		g.f("defer_callee_rebound_between_executions")
+		g.noFailingBody = true
+		defer func() { g.noFailingBody = false }()
+		lit := func() *N {
+			return &N{K: "fn", Ps: []string{"a"}, Ss: [][]*N{{{K: "expr", Ns: []*N{{K: "p", I: g.nid(), Ns: []*N{Id("a")}}}}, {K: "ret", Ns: []*N{Int(0)}}}}}
+		}
+		body := []*N{
+			{K: "let", Ps: []string{"dw"}, Ns: []*N{{K: "fn", Ps: []string{"cb"}, Ss: [][]*N{{
+				{K: "defer", Ns: []*N{{K: "call", S: "cb", Ns: []*N{g.anyE(d)}}}},
+				{K: "ret", Ns: []*N{Int(1)}},
+			}}}}},
+			{K: "expr", Ns: []*N{{K: "call", S: "dw", Ns: []*N{lit()}}}},
+			{K: "expr", Ns: []*N{{K: "call", S: "dw", Ns: []*N{lit()}}}},
+			{K: "ret", Ns: []*N{Int(0)}},
+		}
+		return &N{K: "let", Ps: []string{"x"}, Ns: []*N{{K: "acall", Ns: []*N{{K: "fn", Ss: [][]*N{body}}}}}}
 	case 13:
 		// the "value, found" statement: two targets, ONE index expression on the right
 		g.f("value_found_statement")
@@ -474,6 +497,7 @@ func prelude() []*N {
 	out = append(out, &N{K: "let", Ps: []string{"acc"}, Ns: []*N{{K: "list", Ns: []*N{Int(10), Int(20), Int(30)}}}})
 	out = append(out, &N{K: "let", Ps: []string{"accm"}, Ns: []*N{{K: "map", Ns: []*N{Str("k"), Int(1)}}}})
 	out = append(out, &N{K: "let", Ps: []string{"x", "y", "z"}, Ns: []*N{Int(0), Int(0), Int(0)}})
+	out = append(out, &N{K: "let", Ps: []string{"nv"}, Ns: []*N{{K: "nil"}}})
 	return out
 }
 
